@@ -13,7 +13,8 @@ Bytes and latin-1 text are `List Nat`.  The connection coroutine is a machine
 gzip decompressor yields for the whole (still compressed) body `raw`.
 
 The model is of the tree *after* the `fix:` commits listed in known_findings/C08.json (close-delimited bodies
-are checked against `max_body_size`; a 1xx interim response hands over to the nested read and returns).
+are checked against `max_body_size`; a 1xx interim response hands over to the nested read and returns; a truncated
+gzip body fails the fetch; `_GzipMessageDelegate.headers_received` starts every message without a decompressor).
 -/
 import TornadoModel.C06.Model
 namespace TornadoModel.C08
@@ -236,12 +237,13 @@ inductive Phase where
   deriving Repr, BEq, DecidableEq
 
 /-- what happens once a complete header block `data` has been read -/
-def onHead (cfg : Cfg) (gzSticky : Bool) (data : Bytes) : Phase :=
+def onHead (cfg : Cfg) (_gzPrev : Bool) (data : Bytes) : Phase :=
   match parseHead data with
   | none => .done (.fail .timeout)   -- HTTPInputError before the delegate is started: nobody reports it
   | some ((_, code, reason), h0) =>
     let (h, gzNew) := if cfg.decompress then gzipRewrite h0 else (h0, false)
-    let gz := gzSticky || gzNew
+    -- `headers_received` drops the decompressor an earlier (1xx) message may have created: `_gzPrev` is not consulted
+    let gz := gzNew
     if 100 ≤ code && code < 200 then
       if contains h sContentLength || contains h sTransferEncoding then .done (.fail .closed)
       else .head gz
@@ -326,6 +328,7 @@ def assemble (cfg : Cfg) (Z : Bytes → GzRes) : Outcome → Res
       let r := Z raw
       match r.st with
       | .bad => .err .closed
+      | .trunc => .err .closed      -- `finish()`: compressed data was fed and `decompressor.eof` is false
       | .missing => .err .oracle
       | _ => if r.out.length > cfg.maxBody then .err .closed else .ok m.code m.reason (getAll m.hdrs) r.out
     else .ok m.code m.reason (getAll m.hdrs) raw
